@@ -76,6 +76,12 @@ def classify_exception(e):
     am = _amaranth_dir()
     if isinstance(e, RecursionError):
         if not soc:
+            # raised while Amaranth walks a finished design (simulator construction, conversion): the
+            # harness contributes no deep expressions of its own, the depth is that of the library's logic
+            if inner_file.startswith(am + os.sep):
+                return ("crash/RecursionError@amaranth-internal",
+                        "RecursionError: maximum recursion depth exceeded while Amaranth processed the design "
+                        "(an expression built by the component is too deeply nested)")
             return None
         site = soc[-1]
     elif inner_file.startswith(REPO + os.sep):
